@@ -136,7 +136,7 @@ def upApply (u : DP) : Call → DP
 
 /-! ### the invariant -/
 
-/-- The IP-set buffers of the sequencer. -/
+/-- IP-set part of the invariant: buffers vs. declared (`U`) and downstream (`D`) IP sets. -/
 structure IpsSt where
   addedSets : List (String × Nat)
   removedSets : List String
@@ -144,9 +144,6 @@ structure IpsSt where
   removedMem : MD
   sentSets : List String
 
-def State.ipsSt (s : State) : IpsSt := ⟨s.addedSets, s.removedSets, s.addedMem, s.removedMem, s.sentSets⟩
-
-/-- IP-set part of the invariant: buffers vs. declared (`U`) and downstream (`D`) IP sets. -/
 structure IpsInv (s : IpsSt) (U D : String → Option (String → Bool)) : Prop where
   sent : ∀ k, k ∈ s.sentSets ↔ (D k).isSome
   decl : ∀ k, (U k).isSome ↔ ((mget s.addedSets k).isSome ∨ (k ∈ s.sentSets ∧ k ∉ s.removedSets))
@@ -165,7 +162,7 @@ structure IpsInv (s : IpsSt) (U D : String → Option (String → Bool)) : Prop 
 
 /-- The whole invariant. -/
 structure Inv (s : State) (u d : DP) : Prop where
-  ips : IpsInv s.ipsSt u.ipsets d.ipsets
+  ips : IpsInv ⟨s.addedSets, s.removedSets, s.addedMem, s.removedMem, s.sentSets⟩ u.ipsets d.ipsets
   pol : CatInv (fun _ r => r) s.pol u.pol d.pol
   prof : CatInv (fun _ r => r) s.prof u.prof d.prof
   ep : CatInv epDown s.ep u.ep d.ep
